@@ -3,7 +3,7 @@
    reply sizes, cut points, pipelined or lock-step); Proxy.tla is checked on it.            *)
 EXTENDS Integers, Sequences, FiniteSets, TLC, Json
 CONSTANTS Devs, NEx
-VARIABLES Requests, Replies, halfclose, sent, atBackend, answered, atClient, dialled, shut, ex, printed
+VARIABLES Requests, Replies, halfclose, sent, atBackend, answered, atClient, dialled, shut, ErrOut, errWritten, errAtClient, ex, printed
 
 Methods == {"GET", "POST", "PUT", "DELETE", "OPTIONS", "HEAD"}    \* (the reply to a HEAD announces a length and has no body)
 Targets == {"/", "/a/b?x=1&y=2", "/%7Euser", "*"}
@@ -33,26 +33,28 @@ RandomExchange(salt) ==
   IF kind = "ssh"
     THEN LET u == SshUnits(salt) IN
          [kind |-> "ssh", reqs |-> u, replies |-> [i \in 1..Len(u) |-> IF i = Len(u) /\ u[i].method = "data" THEN RandomElement({0, 1, 700, 65536}) ELSE 0],
-          pipelined |-> FALSE, cut |-> 0, replycut |-> 0, clients |-> RandomElement(1..3), halfclose |-> FALSE, portless |-> 0]
+          pipelined |-> FALSE, cut |-> 0, replycut |-> 0, clients |-> RandomElement(1..3), halfclose |-> FALSE, portless |-> 0,
+          \* what the command writes to its standard error (sizes of the pieces)
+          stderr |-> IF u[Len(u)].method = "data" THEN RandomElement({ <<>>, <<>>, <<1>>, <<700>>, <<40000>>, <<5, 5000>> }) ELSE <<>>]
   ELSE IF kind = "http"
     THEN [kind |-> "http", reqs |-> RandReqs(n, salt), replies |-> [i \in 1..n |-> RandomElement({0, 1, 700, 65536})],
           pipelined |-> RandomElement(BOOLEAN), cut |-> RandomElement(0..200), replycut |-> RandomElement(0..100), clients |-> RandomElement(1..3),
-          halfclose |-> FALSE, portless |-> 0]
+          halfclose |-> FALSE, portless |-> 0, stderr |-> <<>>]
     \* portless: the director names a host without a port, so the backend is that host at the port the client connected to;
     \* two proxies (1, 2) share such a director - every connection must reach the backend of ITS port
     ELSE [kind |-> kind, halfclose |-> (kind = "copy" /\ RandomElement(BOOLEAN)),
           portless |-> (IF kind = "copy" THEN RandomElement({0, 0, 1, 2}) ELSE 0), reqs |-> [i \in 1..n |-> [kind |-> kind, body |-> RandomElement({1, 12, 512, 1400} \cup (IF kind = "copy" THEN {65536} ELSE {})), hasUA |-> TRUE, extraHeader |-> FALSE]],
-          replies |-> [i \in 1..n |-> RandomElement({1, 30, 900})], pipelined |-> FALSE, cut |-> RandomElement(0..50), replycut |-> 0, clients |-> RandomElement(1..3)]
+          replies |-> [i \in 1..n |-> RandomElement({1, 30, 900})], pipelined |-> FALSE, cut |-> RandomElement(0..50), replycut |-> 0, clients |-> RandomElement(1..3), stderr |-> <<>>]
 
 P == INSTANCE Proxy WITH Backend <- "backend", Others <- {"decoy"}, Deviations <- Devs
 \* NEx independently drawn exchanges are the initial states; -simulate starts every behaviour from one of them
-Init == ex \in { RandomExchange(i) : i \in 1..NEx } /\ printed = FALSE /\ P!Init(ex.reqs, ex.replies, ex.halfclose)
-Show == /\ ~printed /\ printed' = TRUE /\ PrintT(<<"SCN", ToJson(ex)>>) /\ UNCHANGED <<Requests, Replies, halfclose, sent, atBackend, answered, atClient, dialled, shut, ex>>
+Init == ex \in { RandomExchange(i) : i \in 1..NEx } /\ printed = FALSE /\ P!Init(ex.reqs, ex.replies, ex.halfclose, ex.stderr)
+Show == /\ ~printed /\ printed' = TRUE /\ PrintT(<<"SCN", ToJson(ex)>>) /\ UNCHANGED <<Requests, Replies, halfclose, sent, atBackend, answered, atClient, dialled, shut, ErrOut, errWritten, errAtClient, ex>>
 Next == Show \/ (P!Next /\ UNCHANGED <<ex, printed>>)
-allvars == <<Requests, Replies, halfclose, sent, atBackend, answered, atClient, dialled, shut, ex, printed>>
+allvars == <<Requests, Replies, halfclose, sent, atBackend, answered, atClient, dialled, shut, ErrOut, errWritten, errAtClient, ex, printed>>
 Spec == Init /\ [][Next]_allvars
 \* liveness: under weak fairness of every step of the relay everything arrives - also after a half-close
 LiveSpec == Init /\ [][Next]_allvars /\ WF_allvars(P!Next /\ UNCHANGED <<ex, printed>>)
-Arrives == <>(Len(atBackend) = Len(Requests) /\ Len(atClient) = Len(Requests))
-Inv == P!BackendSawExactlyClientSent /\ P!ClientSawExactlyBackendSent /\ P!OnlyBackendDialled
+Arrives == <>(Len(atBackend) = Len(Requests) /\ Len(atClient) = Len(Requests) /\ Len(errAtClient) = Len(ErrOut))
+Inv == P!BackendSawExactlyClientSent /\ P!ClientSawExactlyBackendSent /\ P!ClientSawExactlyBackendErr /\ P!OnlyBackendDialled
 =============================================================================
